@@ -313,6 +313,8 @@ def run(c):
     c.mc('MC_Collector', c05.mc_cfg(hostile, live=True), label='graphs with hostile nodes', must_cover=['Step'])
     c.mc('Snapshot', c02.mc_cfg(d=1, k=3), label='3 tracepoints on one location', must_cover=['Collect'])
     c.mc_expect_violation('Snapshot', c02.mc_cfg(shared=True, d=1, k=2, invs=['Independent']), 'deviation SharedTable', what='Independent')
+    c.mc_expect_violation('Snapshot', c02.mc_cfg(stb=True, d=2, k=2, invs=['Independent']), 'deviation SharedTimeBudget',
+                          what='Independent')
     catalogue_leg(c, wd, 1)
     catalogue_leg(c, wd, 2)
     rnd = [G.random_instance(rng, kinds=('int', 'str', 'list', 'dict', 'obj', 'hostile', 'iter', 'exc'))
